@@ -8,6 +8,10 @@ import threading
 import unittest
 
 WORLD = json.load(open(os.environ['VW_WORLD']))
+# every import of this library is a new generation of layer objects; a hook of an older generation that is still called
+# (after the program dropped and re-created its layers) says so
+GEN = os.urandom(4).hex()
+os.environ['VW_GEN'] = GEN
 TRACE = os.environ['VW_TRACE']
 _attempts = {}
 
@@ -47,6 +51,8 @@ def _resume_layer():
 
 def _hook(kind, idx, script):
     def hook(*_):
+        if os.environ.get('VW_GEN') != GEN:
+            emit('stale', idx, kind)
         key = (kind, idx)
         n = _attempts.get(key, 0)
         _attempts[key] = n + 1
@@ -293,7 +299,13 @@ def build(modname):
             for k, v in d.items():
                 setattr(obj, k, v)
         layers.append(obj)
-        ns[L['name']] = obj
+        if L.get('kind') == 'alias' and not isinstance(obj, type):
+            # an instance layer whose __name__ is not the name of the variable that holds it; something else in the module goes by
+            # that name (e.g. the instance's class: `COMBINED = Group(DB, WEB)` with __name__ defaulting to "Group")
+            ns['held_' + L['name']] = obj
+            ns[L['name']] = type(L['name'], (object,), {'__module__': modname})
+        else:
+            ns[L['name']] = obj
     classes = {}
     for tidx, T in enumerate(WORLD['tests']):
         if 'twin_of' in T:
